@@ -1047,7 +1047,13 @@ fn fit_glm(x: Vec<Vec<f64>>, d: usize, y: Vec<f64>, cfg: GlmCfg, q: Vec<Vec<f64>
         let (xl, yl, ql) = (Laid2::new(&x, d, lays.x, f64::NAN), Laid1::new(&y, lays.y), Laid2::new(&q, d, lays.q, -3.25e5));
         let q = ql.cow();
         let ds = DatasetBase::new(xl.cow(), yl.cow());
-        let mut p = TweedieRegressor::params()
+        // builder history: every second case sets another power first (on the other side of the Normal / non-Normal
+        // boundary, where the default link differs), then the case's power: the last setter must win, also for what the
+        // parameter object derives from the power (the default link)
+        static GLM_CHAIN: std::sync::atomic::AtomicUsize = std::sync::atomic::AtomicUsize::new(0);
+        let chained = GLM_CHAIN.fetch_add(1, std::sync::atomic::Ordering::Relaxed) % 2 == 1;
+        let p0 = if chained { TweedieRegressor::params().power(if cfg.power <= 0.0 { 1.0 } else { 0.0 }) } else { TweedieRegressor::params() };
+        let mut p = p0
             .power(cfg.power)
             .alpha(cfg.alpha)
             .fit_intercept(cfg.icpt)
